@@ -50,7 +50,8 @@ RULE = ("generated Python programs: every single-return helper body of a typed g
         "call-site binders; staying lambdas binding the argument's name by any parameter kind; callables that must stay by name "
         "(bound methods of objects with state, classmethods, functools.wraps / lru_cache decorated functions, a decorator without "
         "wraps (oracle only), helpers with := in body, default value or nested lambda) x 27 call shapes x 5 parameter names x "
-        "nesting; non-trivial = python computed a value "
+        "nesting; helpers whose inner call is left by the FC4 bail-out, called with variables named like their parameters, "
+        "permuted or inside expressions (substitution happens once); non-trivial = python computed a value "
         "that was compared with the recorded lambda's; distinct by program text")
 
 
@@ -327,6 +328,57 @@ def stays_by_name(ctx):
     return out
 
 
+# Substitution must happen once.  A call that FC4 deliberately leaves un-inlined (its argument names a binder of the
+# callee's body) sits inside an inlined helper; the arguments of the call that stays are already substituted and must not be
+# visited again under the same argument maps.  That shows when the call site's variables are named like the outer helper's
+# parameters but are passed re-ordered or inside a larger expression (x -> y.a -> ... a second time).
+RESUB_HELPERS = [
+    ("weighted", ["a", "c"], "sum(map(lambda n: n + a * c, [1, 2]))", "def"),          # binds n inside
+    ("weighted2", ["a", "c"], "sum([n + a * c for n in [1, 2]])", "def"),
+    ("spread", ["x", "y"], "sum(map(lambda n: weighted(n, x) - y, [10, 20]))", "def"),   # weighted(n, ..) stays a call (FC4)
+    ("spread2", ["x", "y"], "sum([weighted2(n, x) - y for n in [10, 20]])", "def"),
+    ("spread3", ["x", "y", "c"], "sum(map(lambda n: weighted(n, x * c) - y, [10, 20]))", "def"),
+    ("outer", ["y", "x"], "spread(x, y) + spread(y, x)", "def"),
+    ("keep", ["x", "y"], "(lambda n: (lambda a: sum(map(lambda n: n + a + y, [1, 2])))(n + x))(5)", "def"),
+]
+RESUB_NAMES = ["x", "y", "a", "c", "n", "e"]
+RESUB_TEMPLATES = [
+    "lambda {P}: spread({P}.a, {P}.b)", "lambda {P}: spread({P}.b, {P}.a)", "lambda {P}: spread({P}.a + 1, 0)",
+    "lambda {P}: spread(0, {P}.a + 1)", "lambda {P}: spread2({P}.b, {P}.a)", "lambda {P}: spread2({P}.a + 1, {P}.b)",
+    "lambda {P}: spread3({P}.b, {P}.a, {P}.a + {P}.b)", "lambda {P}: outer({P}.a, {P}.b)", "lambda {P}: keep({P}.b, {P}.a)",
+    "lambda {P}: sum({P}.jets.Select(lambda {Q}: spread({P}.a, {Q}.pt)))", "lambda {P}: sum({P}.jets.Select(lambda {Q}: spread({Q}.pt, {P}.a)))",
+    "lambda {P}: sum({P}.jets.Select(lambda {Q}: spread2({Q}.pt + {P}.b, {P}.a - {Q}.pt)))",
+    "lambda {P}: sum([spread({P}.b, {Q}.pt) for {Q} in {P}.jets])", "lambda {P}: sum([outer({Q}.pt, {P}.a) for {Q} in {P}.jets])",
+    "lambda {P}: sum({P}.jets.Select(lambda {Q}: keep({P}.a, {Q}.pt) + spread3({Q}.pt, {P}.b, 2)))",
+    "lambda {P}: (lambda {Q}: spread({Q} + 1, {P}.b))({P}.a)",
+]
+
+
+def resubstitution(ctx):
+    out = []
+    for t in RESUB_TEMPLATES:
+        two = "{Q}" in t
+        for p in RESUB_NAMES:
+            for q in (RESUB_NAMES if two else [""]):
+                if two and q == p:
+                    continue
+                lam = t.format(P=p, Q=q)
+                used = names_of(lam)
+                hs = [h for h in RESUB_HELPERS if h[0] in used]
+                for h in list(hs):
+                    for g in RESUB_HELPERS:
+                        if g[0] in names_of(h[2]) and g not in hs:
+                            hs.insert(0, g)
+                for h in list(hs):
+                    for g in RESUB_HELPERS:
+                        if g[0] in names_of(h[2]) and g not in hs:
+                            hs.insert(0, g)
+                out.append(mk(lam, hs, 1, {"resubstitution"}, group="resubstitution"))
+                if p in ("x", "y") and (not two or q in ("x", "y", "n")):
+                    out.append(mk(lam, hs, 2, {"resubstitution"}, group="resubstitution", scope="l1"))
+    return out
+
+
 def f30_f31_witnesses():
     return [mk("lambda e: h(*e.xs)", [("h", ["a"], "a + 1", "def")], tags={"F30", "starred"}, group="corpus"),
             mk("lambda e: mk(e.off)", [("mk", ["k"], "lambda j, k=k: j + k", "def")], tags={"F31", "defaults-of-staying-lambda"}, group="corpus")] + \
@@ -568,7 +620,7 @@ def inlinable_left_by_name(case: Case, tree) -> list:
 
 
 def run(ctx):
-    cs = corpus() + starred_and_defaults(ctx) + stays_by_name(ctx) + second_call_cases() + higher_order(ctx) + structured(ctx)
+    cs = corpus() + starred_and_defaults(ctx) + stays_by_name(ctx) + resubstitution(ctx) + second_call_cases() + higher_order(ctx) + structured(ctx)
     en = enumerated(ctx)
     cap = ctx.budget(3000, 60000)
     if len(en) > cap:
